@@ -298,10 +298,14 @@ class Built:
             if t[1] not in self.flats:
                 self.flats[t[1]] = concatenate(self.term(t[2]))
             return self.flats[t[1]]
+        if k == 'nestedc':
+            # a nested constructor argument of a rule head: C(field=e) - written in rule mode
+            return self.classes[t[1]](**{t[2]: self.term(t[3])})
         if k == 'subq':
             # a sub-query used as an OPERAND: ('subq', 'an'|'the', vid, cond...)
             quant = the if t[1] == 'the' else an
-            return quant(entity(self.vars[t[2]], *[self.cond(c) for c in t[3:]]))
+            selected = self.vars[t[2]] if isinstance(t[2], int) else self.term(t[2])     # a variable or an expression
+            return quant(entity(selected, *[self.cond(c) for c in t[3:]]))
         raise ValueError(t)
 
     def cond(self, c):
